@@ -418,7 +418,8 @@ class SymExec:
             v = e.val
             if isinstance(v, bool):
                 raise Unsupported("bool const as data")
-            fr = Fraction(v)
+            # literals denote their shortest round-trip decimal (0.1 is 1/10), on both sides of every comparison
+            fr = Fraction(repr(v)) if isinstance(v, float) else Fraction(v)
             return z3.RealVal(fr), True
         if isinstance(e, LoopIR.Read):
             v = env[e.name]
@@ -969,7 +970,8 @@ def cfull(st: CStore):
 class ConcExec:
     """Plain-Python LoopIR interpreter.  Data: Fraction or None (undefined)."""
 
-    def __init__(self, cfg=None, uf_eval=None, strict=True, max_steps=200000, check_view=True):
+    def __init__(self, cfg=None, uf_eval=None, strict=True, max_steps=200000, check_view=True, c_mod=False):
+        self.c_mod = c_mod  # evaluate % as C's truncating remainder (used only to recognise one known defect)
         self.cfg = dict(cfg or {})
         self.uf_eval = uf_eval
         self.strict = strict
@@ -1016,6 +1018,8 @@ class ConcExec:
                 if b <= 0:
                     self.viol("div_nonpos", str(e))
                     return 0
+                if self.c_mod:
+                    return a - b * int(a / b) if a >= 0 else -((-a) % b)
                 return a % b
             if op == "<":
                 return a < b
@@ -1046,7 +1050,7 @@ class ConcExec:
 
     def data(self, e, env):
         if isinstance(e, LoopIR.Const):
-            return Fraction(e.val)
+            return Fraction(repr(e.val)) if isinstance(e.val, float) else Fraction(e.val)
         if isinstance(e, LoopIR.Read):
             v = env[e.name]
             if not isinstance(v, CRef):
